@@ -10,6 +10,9 @@ func ApplyFunc1ArrayType(dest, source NDArrayType, fn func(val ArrayType) ArrayT
 			destSlice[i] = fn(sourceSlice[i])
 		}
 
+		// Unroll aliases the storage of Go-backed arrays only: store the result for
+		// back-ends whose Unroll returns a copy
+		dest.MustReshape([]int{len(destSlice)}).Apply([]int{0}, 0, 1, destSlice)
 		return
 	}
 
@@ -36,6 +39,8 @@ func AddToArrayTypeArray(dest, source NDArrayType) {
 			destSlice[i] += sourceSlice[i]
 		}
 
+		// see ApplyFunc1: store the result for back-ends whose Unroll returns a copy
+		dest.MustReshape([]int{len(destSlice)}).Apply([]int{0}, 0, 1, destSlice)
 		return
 	}
 
